@@ -581,6 +581,30 @@ def run_case(case: dict, ctx: dict) -> dict:
                 got = os.path.splitext(os.path.basename(str(res)))[0] if res is not None else None
                 if got != want or (res is not None and any(str(res).startswith(d + os.sep) for d in dirs)):
                     violation("type-to-template-without-user-template-in-chain:%s" % policy.name, {"class": c.__name__, "got": str(res), "want": want, "d1": plan.get("d1"), "d2": plan.get("d2"), "dir_names": plan.get("dir_names"), "lang": lang})
+            # whatever a class resolves to, it resolves to the same thing on a loader whose templates were LISTED before (by the
+            # caller, by Jinja's Environment.list_templates()) and again after the listing on the same loader
+            classes = sorted({type(v) for v in pool} | {getattr(pydsdl, n) for n in CLASS_TEMPLATES if hasattr(pydsdl, n)}, key=lambda x: x.__name__)
+            listed_loader = DSDLTemplateLoader(templates_dirs=[pathlib.Path(d) for d in dirs], package_name_for_templates="nunavut.lang.%s" % lang, search_policy=policy)
+            try:
+                listed_loader.list_templates()
+                list(listed_loader.get_templates())
+            except Exception:  # pylint: disable=broad-except
+                pass
+            plain_loader = DSDLTemplateLoader(templates_dirs=[pathlib.Path(d) for d in dirs], package_name_for_templates="nunavut.lang.%s" % lang, search_policy=policy)  # (never listed)
+            for c in classes:
+                try:
+                    r_plain = plain_loader.type_to_template(c)
+                    r_listed = listed_loader.type_to_template(c)
+                    third = DSDLTemplateLoader(templates_dirs=[pathlib.Path(d) for d in dirs], package_name_for_templates="nunavut.lang.%s" % lang, search_policy=policy)
+                    third.type_to_template(classes[0])
+                    third.list_templates()
+                    r_again = third.type_to_template(c)
+                except Exception as ex:  # pylint: disable=broad-except
+                    r_plain, r_listed, r_again = "raised %s" % type(ex).__name__, None, None
+                evaluations += 1
+                if not (str(r_plain) == str(r_listed) == str(r_again)):
+                    violation("type-to-template-depends-on-an-earlier-listing:%s" % policy.name, {"class": c.__name__, "fresh": str(r_plain), "after_listing_on_another_loader": str(r_listed), "after_listing_on_the_same_loader": str(r_again), "d1": plan.get("d1"), "d2": plan.get("d2"), "lang": lang})
+                    break
             # exact class template present in the user set: user wins under both policies
             for n in sorted(set(plan.get("d1") or []) | set(plan.get("d2") or [])):
                 cls = getattr(pydsdl, n, None)
